@@ -139,11 +139,10 @@ Print Assumptions single_loop_polygon_eq_loop.
     point := canonical unit points (IsUnit, no -0 coordinate), peq := Go ==, ordered_ccw and
     crossing_sign := the C03 crosser over RobustSign, contains_point := C04's brute-force
     containment. The interface laws peq_spec, cross_swap, cross_rev, occw_aab, occw_aba, cp_invert,
-    cp_full, cp_empty are discharged from C02/C03/C04; what remains: H_STABLE_DET, H_TANGENT and
+    cp_full, cp_empty are discharged from C02/C03/C04; what remains: H_TANGENT and
     this layer's H_JORDAN_* / H_SUBREGION_* / H_LATBOUND_* premises. *)
 Section RealPredicates.
   Import Link_C07.
-  Hypothesis HS : C02_Float.H_STABLE_DET.
   Hypothesis HT : Link_C02_C03.H_TANGENT.
   Variable refdir : cpoint -> cpoint.
   Variables origin empty_pt full_pt zero_pt : cpoint.
@@ -162,42 +161,42 @@ Section RealPredicates.
 
   Theorem real_loop_intersects_symmetric : forall A B, wf cpoint A -> wf cpoint B ->
     Intersects A B = Intersects B A.
-  Proof. exact (real_intersects_symmetric HS HT refdir origin zero_pt sub_contains bound_intersects
+  Proof. exact (real_intersects_symmetric HT refdir origin zero_pt sub_contains bound_intersects
                   bound_union_full H_sub H_v0 H_bnd H_bnd_empty). Qed.
 
   Theorem real_loop_contains_itself : forall A, valid cpoint c_cross A -> Contains A A = true.
-  Proof. exact (real_contains_itself HS HT refdir origin zero_pt sub_contains bound_intersects
+  Proof. exact (real_contains_itself HT refdir origin zero_pt sub_contains bound_intersects
                   bound_union_full H_sub H_v0). Qed.
 
   Theorem real_loop_intersects_itself : forall A, valid cpoint c_cross A -> is_empty cpoint A = false ->
     Intersects A A = true.
-  Proof. exact (real_intersects_itself HS HT refdir origin zero_pt sub_contains bound_intersects
+  Proof. exact (real_intersects_itself HT refdir origin zero_pt sub_contains bound_intersects
                   bound_union_full H_sub H_v0 H_bnd H_bnd_empty). Qed.
 
   Theorem real_loop_intersects_iff_complement_does_not_contain : forall A B,
     H_JORDAN_side cpoint c_peq c_cross cp -> wf cpoint A -> wf cpoint B ->
     Intersects A B = negb (Contains (Inv A) B).
-  Proof. exact (real_intersects_iff_complement_does_not_contain HS HT refdir origin empty_pt full_pt zero_pt
+  Proof. exact (real_intersects_iff_complement_does_not_contain HT refdir origin empty_pt full_pt zero_pt
                   sub_contains bound_intersects bound_union_full H_sub H_v0 H_bnd H_bnd_empty). Qed.
 
   Theorem real_loop_contains_iff_complements_reversed : forall A B,
     H_JORDAN_side cpoint c_peq c_cross cp -> wf cpoint A -> wf cpoint B ->
     Contains A B = Contains (Inv B) (Inv A).
-  Proof. exact (real_contains_iff_complements_reversed HS HT refdir origin empty_pt full_pt zero_pt
+  Proof. exact (real_contains_iff_complements_reversed HT refdir origin empty_pt full_pt zero_pt
                   sub_contains bound_intersects bound_union_full H_sub H_v0). Qed.
 
   Theorem real_loop_contains_only_if_subset : forall A B,
     H_JORDAN_subset cpoint c_peq c_occw c_cross cp ->
     valid cpoint c_cross A -> valid cpoint c_cross B -> Contains A B = true ->
     forall p, cp B p = true -> cp A p = true.
-  Proof. exact (real_contains_only_if_subset HS HT refdir origin zero_pt sub_contains bound_intersects
+  Proof. exact (real_contains_only_if_subset HT refdir origin zero_pt sub_contains bound_intersects
                   bound_union_full H_sub H_v0). Qed.
 
   Theorem real_loop_disjoint_only_if_no_common_point : forall A B,
     H_JORDAN_disjoint cpoint c_peq c_occw c_cross cp ->
     valid cpoint c_cross A -> valid cpoint c_cross B -> Intersects A B = false ->
     forall p, cp A p = true -> cp B p = true -> False.
-  Proof. exact (real_disjoint_only_if_no_common_point HS HT refdir origin zero_pt sub_contains
+  Proof. exact (real_disjoint_only_if_no_common_point HT refdir origin zero_pt sub_contains
                   bound_intersects bound_union_full H_sub H_v0 H_bnd H_bnd_empty). Qed.
 
   Variable psub plng pbi : polygon cpoint -> polygon cpoint -> bool.
@@ -215,7 +214,7 @@ Section RealPredicates.
       contains_point is C04's brute_contains and the two models of Loop.Invert agree *)
   Theorem real_contains_point_is_brute_force : forall L p, coherent empty_pt full_pt L ->
     cp L p = c_brute refdir origin zero_pt (to_contain L) p.
-  Proof. exact (cp_is_brute HS HT refdir origin empty_pt full_pt zero_pt). Qed.
+  Proof. exact (cp_is_brute HT refdir origin empty_pt full_pt zero_pt). Qed.
 
   Theorem real_invert_is_contain_invert : forall L, coherent empty_pt full_pt L ->
     to_contain (Inv L) = Contain.invert cpoint empty_pt full_pt (to_contain L) /\
